@@ -408,7 +408,10 @@ func (r *transport) finishValidation(
 		_, ageFrom304 = resp.Header["Age"]
 	}
 	out, outErr := r.vrh.HandleValidationResponse(ctx, req, resp, err)
-	if notModified && outErr == nil && out == ctx.Stored.Data {
+	// no-store on the request or on the 304 forbids storing any part of the exchange.
+	mayStore := notModified && !ctx.CCReq.NoStore() &&
+		!internal.ParseCCResponseDirectives(resp.Header).NoStore()
+	if mayStore && outErr == nil && out == ctx.Stored.Data {
 		h := out.Header
 		// The cache's own fields are not part of the stored response, and the
 		// age of the freshened response restarts from the 304.
